@@ -3,7 +3,7 @@ PROP = dict(
     module="M3d.Props.C03",
     corr=dict(quick=500, thorough=3000),
     gen=["Kernels"],
-    tie_modules=["M3d.Lemmas.KernelsTieBounded"],
+    tie_modules=["M3d.Lemmas.KernelsTieBounded", "M3d.Lemmas.KernelsTiePolytope"],
     corr_theorems=(
         "kind `tree` compares Min()/Max()/BoundsValid/Contains of the REAL solid built by the library's constructors with "
         "SolidExpr.bounds/contains of the model (M3d.Bd.SolidExpr.eval) on the same expression and points — mode q at Rat (the instance "
@@ -17,7 +17,12 @@ PROP = dict(
         "factors), wrapper_does_not_cut_polytope (with an enclosing box the solid IS the half-space test) and, for the model of Mesh(), "
         "mesh_vertices_scale_invariant + polytope_box_encloses + wrapper_does_not_cut_polytope_mesh(2); kind `pvert` validates the faithful model "
         "of an internal step: the vertices Mesh() enumerates (real vertex()/spatialEpsilon() through the hook VerifPolytopeVertices) bit for bit "
-        "against meshVerts3/meshVerts2 at Float, on the scaled systems"
+        "against meshVerts3/meshVerts2 at Float, on the scaled systems; kind `prect` (q and f, 2-D and 3-D) calls the REAL "
+        "NewConvexPolytopeRect(min, max) and compares its constraint list, its ConvexPolytope.Contains per point, the Min()/Max()/BoundsValid "
+        "of its Solid() and Solid().Contains per point with the requirement: the constraints rectCons3/rectCons2 "
+        "(M3d.KernelsTie.Polytope.newConvexPolytopeRect(2): the regenerated constructor IS that list), the box test of [min, max] "
+        "(rect_polytope_contains), the box [min, max] itself (rect_polytope_mesh_box, min <= max) and the box test again "
+        "(wrapper_does_not_cut_polytope_rect); all arithmetic of the real code is exact on these systems, so mode f is compared exactly too"
     ),
     rule=(
         "random expression trees of depth 0..6 (2D and 3D, half exact/half float) over Rect/Sphere/Circle leaves and opaque leaves "
@@ -29,7 +34,9 @@ PROP = dict(
         "duplicated and touching redundant constraints; every constraint multiplied by its own factor: none, one 2^k for all, independent 2^k "
         "with k in [-60,60], mixed long/short (2^-60..2^-35 next to 2^35..2^60), some short, decimal factors — #stat poly_min_normal_* gives "
         "the distribution of the shortest normal); the same systems feed the dedicated streams polycut (robustly-inside points next to every "
-        "vertex, on faces and edges, and the centre) and pvert; per tree ~45 query points: a thin shell just "
+        "vertex, on faces and edges, and the centre) and pvert; stream prect: NewConvexPolytopeRect(min, max) with dyadic (q) or random (f, scales "
+        "1e-3..1e6) corners, thickness >= 1e-4*scale per axis, 1/12 flat on one axis, 1/12 inverted on one axis (empty), ~45-57 points: shell just "
+        "outside each face (q: 1/1024..1/4; f: 1e-12*scale.. and one ulp either side of every face), faces/edges/corners, inward corners, centre; per tree ~45 query points: a thin shell just "
         "outside each face of the reported box (exact: 1/1024..1/4; float: 1.01e-8*scale..), faces/edges/corners, images of the operands' "
         "corners and surfaces. exact mode: dyadic parameters (5 fractional bits, scales ±2^k, unimodular integer matrices) so that every Go "
         "+,-,* is exact — outputs must be EQUAL to the Rat model. distinct = distinct operation lines; #stat counters give the number of "
@@ -44,6 +51,17 @@ PROP = dict(
         "Rect.Contains, LinearConstraint.Contains, Coord.Norm) are the d3=false instances of the same definitions; Matrix3.Det / "
         "Matrix3.MulColumnInv / Matrix2.Det / Matrix2.MulColumnInv of the matrix ConvexPolytope.vertex builds are det3 / mulColInv3 / det2 / "
         "mulColInv2 of the polytope model, operation for operation (rfl)",
+        "regenerated polytope code (loops over the constraint slice are the structural recursion loopFrom, ConvexPolytope is a List): "
+        "M3d.KernelsTie.Polytope.* re-prove against lean/M3d/Gen/Kernels.lean that model3d/model2d ConvexPolytope.Contains is polyContains "
+        "(convexPolytope_contains(_gen), via loopFrom_all: the loop is List.all of LinearConstraint.Contains), ConvexPolytope.spatialEpsilon is "
+        "spatialEps with the literal 1e-8 (via loopFrom_eq_foldl), NewConvexPolytopeRect is rectCons3/rectCons2 constraint for constraint (rfl), "
+        "polytopeSolid.Min/Max return the stored bounds, and that InBounds && P.Contains assembled from the regenerated pieces is the model's "
+        "polytopeS (polytopeSolid_eq) - hence polytopeSolid_bounded (a contained point lies in [Min(), Max()]: the polytope leaf of bounded_sound "
+        "applied to the regenerated code), newConvexPolytopeRect_contains (= regenerated Rect.Contains) and newConvexPolytopeRect_solid "
+        "(reports [min, max], contains exactly its points); the _gen forms quantify over every value of the generated types (gcs_ofGcs). "
+        "Not translated (interface / recursion / map-based Mesh): InBounds (its body is that of Rect.Contains, tied), polytopeSolid.Contains "
+        "(assembled by hand in polytopeSolidContains), ConvexPolytope.vertex (recursive index sort; modelled as vertex3/vertex2, tied by kind pvert), "
+        "Mesh(), addConvexFace",
         "modelled, not verified: float64 as an ordered field (mode q is exact by construction of the inputs; mode f re-runs the same model at IEEE doubles and must agree bit for bit, signed zeros identified)",
         "opaque leaves (Cylinder/Cone/Torus/Capsule Contains, Triangle, toolbox ScrewSolid, Teardrop2D/3D, SpurGear/HelicalGear, involute profile, LineJoin, RadialCurve, TriangularLine/Ball, HeightMap, RectSet, Ramp, bitmap, mesh solids): their Contains is a function parameter; the hypothesis `Bounded leaf` of bounded_sound is TESTED on the shell stream (kind shell) and is an assumption, not a theorem",
         "SDF / Collider / Metaball operands enter through their contracts (SDFBoxed, ColOK, MBBounded) — assumptions about the operand, used only by the does-not-cut theorems; boundedness of the derived solids needs none of them",
@@ -68,8 +86,12 @@ PROP = dict(
         "wrapper_does_not_cut_* for Cache/StackedSolid/Transform/Profile/CrossSection/Slice/Revolve/SDFToSolid/SmoothJoin/ColliderSolid "
         "inset+hollow/MetaballSolid/ConvexPolytope.Solid (un-normalised constraints: polytope_scale_invariant, mesh_vertices_scale_invariant, "
         "polytope_box_encloses — the box of the vertices Mesh() enumerates encloses every bounded, well-conditioned half-space intersection, "
-        "2-D and 3-D), transform_bounds (ApplyBounds encloses the image for Translate/Scale/VecScale/Matrix/JoinedTransform), and the closed-"
+        "2-D and 3-D; rect_polytope_contains / rect_polytope_mesh_box / wrapper_does_not_cut_polytope_rect — NewConvexPolytopeRect(min, max) "
+        "is the rect: its half-space test is the box test, the vertices Mesh() enumerates are the eight (four) corners, its Solid() reports "
+        "[min, max] and contains exactly its points), transform_bounds (ApplyBounds encloses the image for Translate/Scale/VecScale/Matrix/JoinedTransform), and the closed-"
         "form leaves sphere/rect/capsule/cylinder/cone/torus with circle_axis_bound (circleAxisBound >= the true extent sqrt(1-n_i^2)). "
+        "The regenerated source (Go->Lean translation of shapes/polytope code, incl. the loops of ConvexPolytope.Contains/spatialEpsilon) is "
+        "proved equal to the model by the tie theorems M3d.KernelsTie.Bounded.* and M3d.KernelsTie.Polytope.* on every run. "
         "Tied to /repo on every run by building the same expressions with the real constructors and diffing Min/Max/Contains against the model "
         "(exact at Rat on dyadic inputs, bit-for-bit at Float otherwise), plus direct evaluation of the property on the implementation."
     ),
